@@ -30,6 +30,13 @@ class VmMath:
     def reset(self) -> None:
         self._eval_stack.clear()
 
+    @property
+    def stack_depth(self) -> int:
+        return self._eval_stack.depth
+
+    def truncate_stack(self, depth) -> None:
+        self._eval_stack.truncate(depth)
+
     def push(self, srce) -> None:
         value = None
         if isinstance(srce, Number) or srce is Operand.NULL:
